@@ -427,10 +427,13 @@ const (
 	ShapePermuted   // physical rows rotated, restored by Sort on a key column
 	ShapeMidSwap    // first and last row stay in place, the rows between them are stored in reverse order (restored by Sort)
 	ShapeSparsePerm // junk rows interleaved AND the kept rows stored in reverse order (Filter, then Sort)
+	// ShapeEndsDense: the first and the last logical row sit n-1 physical positions apart (as they would in a
+	// contiguous range), the rows between them are stored OUTSIDE that range, on both sides of it
+	ShapeEndsDense
 	NShapes
 )
 
-var ShapeNames = []string{"identity", "reversed", "sliced", "sparse", "permuted", "midswap", "sparseperm"}
+var ShapeNames = []string{"identity", "reversed", "sliced", "sparse", "permuted", "midswap", "sparseperm", "endsdense"}
 
 const keyCol = "zzkey"
 
@@ -551,6 +554,23 @@ func BuildShape(f Frame, shape int) qframe.QFrame {
 			pos[r] = 2*(n-1-r) + 1
 		}
 		g, key := physical(f, 2*n+1, pos)
+		return sel(withKey(g, key).Filter(qframe.Filter{Column: keyCol, Comparator: ">=", Arg: 0}).Sort(qframe.Order{Column: keyCol}))
+	case ShapeEndsDense:
+		// physical size 3n: row 0 at n, row n-1 at 2n-1, odd rows below n, the other even rows above 2n-1
+		pos := make([]int, n)
+		for r := range pos {
+			switch {
+			case r == 0:
+				pos[r] = n
+			case r == n-1:
+				pos[r] = 2*n - 1
+			case r%2 == 1:
+				pos[r] = r - 1
+			default:
+				pos[r] = 2*n - 1 + r
+			}
+		}
+		g, key := physical(f, 3*n, pos)
 		return sel(withKey(g, key).Filter(qframe.Filter{Column: keyCol, Comparator: ">=", Arg: 0}).Sort(qframe.Order{Column: keyCol}))
 	}
 	return Build(f)
